@@ -89,6 +89,44 @@ theorem simpleIsMovie_spec (n : Spec.Name) (h : simpleIsMovie n = true) : theSim
   · rename_i m heq; rw [heq, of_decide_eq_true h]
   · cases h
 
+/-- the tree's variable is what the reader's environment resolves the name to (assignment / receiver position) -/
+def resolvesVarB (env : Env) (k : VarKind) (n : Spec.Name) : Bool :=
+  match env.resolveVar n with
+  | .var k' n' => decide (k' = k) && decide (n' = n)
+  | _ => false
+
+theorem resolvesVarB_spec (env : Env) (k : VarKind) (n : Spec.Name) (h : resolvesVarB env k n = true) : env.resolveVar n = .var k n := by
+  unfold resolvesVarB at h
+  split at h
+  · rename_i k' n' heq
+    simp only [Bool.and_eq_true, decide_eq_true_eq] at h
+    rw [heq, h.1, h.2]
+  · cases h
+
+/-- receiver of `obj(mSel, …)`: a variable the reader knows as one -/
+def recvB (env : Env) : Expr → Bool
+  | .var k n => plainIdB n && env.isVar n && resolvesVarB env k n
+  | _ => false
+
+theorem recvB_spec (env : Env) (o : Expr) (h : recvB env o = true) : RecvOk env o := by
+  cases o with
+  | var k n =>
+    simp only [recvB, Bool.and_eq_true] at h
+    exact ⟨n, rfl, plainIdB_spec n h.1.1, h.1.2, resolvesVarB_spec env k n h.2⟩
+  | _ => simp [recvB] at h
+
+/-- receiver of the command form `obj mSel, …` -/
+def recvSB (env : Env) : Expr → Bool
+  | .var k n => cmdName n && !(Tok.id n).kw "sound" && env.isVar n && resolvesVarB env k n
+  | _ => false
+
+theorem recvSB_spec (env : Env) (o : Expr) (h : recvSB env o = true) : RecvStmtOk env o := by
+  cases o with
+  | var k n =>
+    simp only [recvSB, Bool.and_eq_true, Bool.not_eq_true'] at h
+    exact ⟨n, rfl, h.1.1.1, h.1.1.2, h.1.2, resolvesVarB_spec env k n h.2⟩
+  | _ => simp [recvSB] at h
+
 mutual
 /-- `Spec.Frag env e`, decidable form -/
 def fragEB (env : Env) : Expr → Bool
@@ -100,6 +138,7 @@ def fragEB (env : Env) : Expr → Bool
   | .bin _ a b => fragEB env a && fragEB env b
   | .field a => fragEB env a
   | .call f as => plainIdB f && !env.isVar f && fragLB env as
+  | .mcall o _ as => recvB env o && fragLB env as
   | .list as => fragLB env as
   | .plist as => decide (as.length % 2 = 0) && fragLB env as
   | .the t k as => TheOk t k as.length && fragLB env as
@@ -144,7 +183,10 @@ theorem fragEB_spec (env : Env) : ∀ (e : Expr), fragEB env e = true → Spec.F
   | .float _ _, h => by simp [fragEB] at h
   | .sym _, _ => by simp [Spec.Frag]
   | .me, h => by simp [fragEB] at h
-  | .mcall _ _ _, h => by simp [fragEB] at h
+  | .mcall o _ as, h => by
+    simp only [fragEB, Bool.and_eq_true] at h
+    simp only [Spec.Frag]
+    exact ⟨recvB_spec env o h.1, fragLB_spec env as h.2⟩
   | .plist as, h => by
     simp only [fragEB, Bool.and_eq_true, decide_eq_true_eq] at h
     simp only [Spec.Frag]
@@ -237,11 +279,14 @@ theorem varOkB_spec (env : Env) (v : Expr) (h : varOkB env v = true) : VarOk env
 mutual
 def fragSB (env : Env) : Stmt → Bool
   | .set lv v => lvB env lv && fragEB env v
-  | .call f as => cmdName f && !(Tok.id f).kw "sound" && !(Tok.id f).kw "go" && !env.isVar f && fragLB env as
+  | .call f as => (decide (f = "put".toList) || (cmdName f && !(Tok.id f).kw "sound" && !(Tok.id f).kw "go" && !env.isVar f)
+      || (decide (f = "sound".toList) && (match as with | .sym _ :: _ => true | _ => false))
+      || (decide (f = "go".toList) && !env.isVar f && (match as with | [.sym w] => goWord w | _ => false))) && fragLB env as
   | .exit => true
   | .put md v lv => fragEB env v && tgB env lv && (decide (md ≠ .into) || lvKind lv)
   | .delete t => tgB env t
   | .hilite t => tgB env t
+  | .mcall o _ as => recvSB env o && fragLB env as
   | .ifThen c t e => fragEB env c && fragSsB env t && fragSsB env e
   | .repeatWhile c b => fragEB env c && fragSsB env b
   | .repeatWith v a b _ body => varOkB env v && fragEB env a && fragEB env b && fragSsB env body
@@ -258,9 +303,22 @@ theorem fragSB_spec (env : Env) : ∀ (s : Stmt), fragSB env s = true → Spec.F
     simp only [Spec.FragS]
     exact ⟨lvB_spec env lv h.1, fragEB_spec env v h.2⟩
   | .call f as, h => by
-    simp only [fragSB, Bool.and_eq_true, Bool.not_eq_true'] at h
+    simp only [fragSB, Bool.and_eq_true, Bool.or_eq_true, decide_eq_true_eq, Bool.not_eq_true'] at h
     simp only [Spec.FragS]
-    exact ⟨Or.inr (Or.inr (Or.inr ⟨h.1.1.1.1, h.1.1.1.2, h.1.1.2, h.1.2⟩)), fragLB_spec env as h.2⟩
+    refine ⟨?_, fragLB_spec env as h.2⟩
+    rcases h.1 with ((hp | hc) | hs) | hg
+    · exact Or.inl hp
+    · exact Or.inr (Or.inr (Or.inr ⟨hc.1.1.1, hc.1.1.2, hc.1.2, hc.2⟩))
+    · refine Or.inr (Or.inl ⟨hs.1, ?_⟩)
+      have h2 := hs.2
+      split at h2
+      · rename_i m more; exact ⟨m, more, rfl⟩
+      · cases h2
+    · refine Or.inr (Or.inr (Or.inl ⟨hg.1.1, hg.1.2, ?_⟩))
+      have h2 := hg.2
+      split at h2
+      · rename_i w; exact ⟨w, rfl, h2⟩
+      · cases h2
   | .exit, _ => by simp [Spec.FragS]
   | .ifThen c t e, h => by
     simp only [fragSB, Bool.and_eq_true] at h
@@ -286,7 +344,10 @@ theorem fragSB_spec (env : Env) : ∀ (s : Stmt), fragSB env s = true → Spec.F
     simp only [fragSB] at h
     simp only [Spec.FragS]
     exact tgB_spec env t h
-  | .mcall .., h => by simp [fragSB] at h
+  | .mcall o _ as, h => by
+    simp only [fragSB, Bool.and_eq_true] at h
+    simp only [Spec.FragS]
+    exact ⟨recvSB_spec env o h.1, fragLB_spec env as h.2⟩
   | .tell .., h => by simp [fragSB] at h
   | .repeatIn .., h => by simp [fragSB] at h
   | .exitRepeat, h => by simp [fragSB] at h
